@@ -24,6 +24,8 @@ def obj_ids(x, dicts, lists):
             lists.add(id(x))
         for v in x:
             obj_ids(v, dicts, lists)
+    elif isinstance(x, (set, bytearray)):
+        lists.add(id(x))          # mutable non-list leaves count like lists
     return dicts, lists
 
 
@@ -53,7 +55,7 @@ def gen_heap_case(rng):
                 sub = {} if rng.random() < p_empty else v
                 items.append([k, {"ref": alloc(sub, sp + (k,), p_empty)}])
             else:
-                items.append([k, {"leaf": gt.jsonable(v)}])
+                items.append([k, {"leaf": cc.jsonable(v)}])
         nodes[a] = items
         return a
 
@@ -103,7 +105,7 @@ def run_heap(case):
     objs = [dict() for _ in h0]
     for i, node in enumerate(h0):
         for k, v in node:
-            objs[i][k] = objs[v["ref"]] if "ref" in v else gt.unjson(v["leaf"])
+            objs[i][k] = objs[v["ref"]] if "ref" in v else cc.unjson(v["leaf"])
     op = case["op"]
     res = []
     sess = None
@@ -145,14 +147,14 @@ def run_heap(case):
             index[id(r)] = len(all_objs)
             all_objs.append(r)
         visit(r)
-    h1 = [[[k, {"ref": index[id(v)]} if isinstance(v, dict) else {"leaf": gt.jsonable(v)}]
+    h1 = [[[k, {"ref": index[id(v)]} if isinstance(v, dict) else {"leaf": cc.jsonable(v)}]
            for k, v in o.items()] for o in all_objs]
     return {"h1": h1, "res": [index[id(r)] for r in res]}
 
 
 def c_heap(h):
     return ct.lst([ct.lst([ct.pair(ct.s(k), "(HRef %s)" % ct.n(v["ref"]) if "ref" in v
-                                    else "(HLeaf %s)" % ct.value(gt.unjson(v["leaf"]))) for k, v in node])
+                                    else "(HLeaf %s)" % ct.value(cc.unjson(v["leaf"]))) for k, v in node])
                    for node in h])
 
 
@@ -220,9 +222,16 @@ class C11(Prop):
 
     # -- generation ----------------------------------------------------------
     def gen_one(self, rng, i):
-        g = Gen(rng, long=(i % 2 == 0))
+        # leaf kinds: also sets and bytearrays (mutable, not lists) in a third of the cases
+        kinds = rng.choice([None, None, "nbisleB", "leBs"])
+        g = Gen(rng, long=(i % 2 == 0), kinds=kinds)
         case = g.case()
         pre = [o for o in case["ops"] if o[0] != "clone"]
+        probe_n = [0]
+
+        def probe():
+            probe_n[0] += 1
+            return "z%02d" % probe_n[0]     # distinct, sorts after every generated element
         lazy = rng.random() < 0.12
         if lazy:
             case["init"]["lazy"] = True
@@ -244,7 +253,7 @@ class C11(Prop):
             def agree(a, b):
                 for k in list(a):
                     if k in b:
-                        if isinstance(a[k], dict) and isinstance(b[k], dict) and "__tuple__" not in a[k]:
+                        if isinstance(a[k], dict) and isinstance(b[k], dict) and not cc.is_enc_leaf(a[k]):
                             agree(a[k], b[k])
                         elif not isinstance(a[k], dict) and not isinstance(b[k], dict) and rng.random() < 0.85:
                             a[k] = b[k]
@@ -253,13 +262,14 @@ class C11(Prop):
             if rng.random() < 0.7:
                 into[extra] = rng.choice([1, "v", {"data": "ohai"}])
         def list_leaves():
-            return [(p[:-1], p[-1]) for p, sec in cc.schema_paths(g.sch) if not sec and g.node(p[:-1])[p[-1]] == "l"]
+            return [(p[:-1], p[-1]) for p, sec in cc.schema_paths(g.sch)
+                    if not sec and g.node(p[:-1])[p[-1]] in ("l", "e", "B")]
         # in-place edits of list leaves (not a config operation: a probe for shared leaf objects)
         for _ in range(rng.choice([0, 0, 1, 2])):
             ll = list_leaves()
             if ll:
                 kp, k = rng.choice(ll)
-                pre.insert(rng.randint(0, len(pre)), ["leafappend", rng.choice(["item", "attr"]), list(kp), k, "q"])
+                pre.insert(rng.randint(0, len(pre)), ["leafappend", rng.choice(["item", "attr"]), list(kp), k, probe()])
         if rng.random() < 0.3:
             case["fs"].append(["projB", rng.choice(cc.SUFFIXES), {"data": g.inst(kinds="nbisl")}])
         seen_files, uniq = set(), []
@@ -270,7 +280,10 @@ class C11(Prop):
         case["fs"] = uniq
         # untracked local edits (raw dict / list leaf) live in the cache only: re-merge before cloning,
         # "the moment of cloning" is about what the levels hold
-        if any((o[2] if o[0] == "via" else o)[0] in ("rawset", "leafappend") for o in pre):
+        # the same for merge=False loads / re-pointings left unmerged (the guard of the clone theorems:
+        # cache = merge of the levels; see Properties/C11.v)
+        if any((o[2] if o[0] == "via" else o)[0] in ("rawset", "leafappend") for o in pre) or \
+                any(o[0].endswith("_d") or o[0].startswith("set_") for o in pre):
             pre.append(["merge"])
         post = []
         handles = {False: dict(g.handles), True: {}}
@@ -293,7 +306,7 @@ class C11(Prop):
                 continue
             if r2 < 0.24 and list_leaves():
                 kp, k = rng.choice(list_leaves())
-                post.append([side, ["leafappend", rng.choice(["item", "attr"]), list(kp), k, "q"]])
+                post.append([side, ["leafappend", rng.choice(["item", "attr"]), list(kp), k, probe()]])
                 continue
             if r < 0.1 and secs and len(g.handles) < 3:
                 p = rng.choice(secs)
@@ -302,7 +315,10 @@ class C11(Prop):
                 g.handles[h] = tuple(p)
                 op = ["hold", h, rng.choice(["item", "attr"]), list(p)]
             elif r < 0.22:
-                op = g.reload()
+                for op in g.reload():
+                    post.append([side, op])
+                handles[side] = g.handles
+                continue
             elif g.handles and rng.random() < 0.4:
                 h = rng.choice(list(g.handles))
                 op = ["via", h, g.path_op(base=g.handles[h])]
@@ -471,11 +487,11 @@ class C11(Prop):
         from .c06 import overlay
         differ = [i for i in range(len(LEVEL_ATTRS)) if obs["lo"][i] != obs["lc"][i]
                   and (obs["lo"][i] or obs["lc"][i])]
-        d_o = gt.unjson(obs["lo"][0]) or {}
-        g = gt.unjson(case["into"]) if case["into"] is not None else None
+        d_o = cc.unjson(obs["lo"][0]) or {}
+        g = cc.unjson(case["into"]) if case["into"] is not None else None
         into_overrides = False
         if 0 in differ and g is not None:
-            d_c = gt.unjson(obs["lc"][0])
+            d_c = cc.unjson(obs["lc"][0])
             if d_c == overlay(g, d_o):
                 differ.remove(0)              # the union, ours winning: as specified
             elif d_c == overlay(d_o, g):
@@ -552,7 +568,8 @@ class C11(Prop):
         def body(c):
             pass
         for _ in range(n):
-            sch = cc.schema(rng, depth=rng.choice([2, 3, 4]), width=3, kinds="nbislt")
+            sch = cc.schema(rng, depth=rng.choice([2, 3, 4]), width=3,
+                            kinds=rng.choice(["nbislt", "nbislt", "nbisleB"]))
             # root -> sub -> deep, each with its own configuration; default tasks so that the
             # collection names themselves ("sub", "sub.deep") are task paths too
             root, sub, deep = Collection("root"), Collection("sub"), Collection("deep")
@@ -563,14 +580,14 @@ class C11(Prop):
             root.add_collection(sub)
             handed_in = {}
             for name, coll in (("root", root), ("sub", sub), ("deep", deep)):
-                data = cc.instance(rng, sch, 0.7)
+                data = cc.unjson(cc.instance(rng, sch, 0.7))     # sets / bytearrays as real objects
                 handed_in[name] = (data, copy.deepcopy(data))
                 coll.configure(data)              # the caller keeps ``data``
             path = rng.choice([None, "top", "sub.t", "sub", "sub.deep.t", "sub.deep"])
             before = copy.deepcopy(root.configuration(path))
             handed = root.configuration(path)
             snap = copy.deepcopy(handed)
-            case = {"fs": [], "init": {"defaults": gt.jsonable(cc.instance(rng, sch, 0.5)), "lazy": False},
+            case = {"fs": [], "init": {"defaults": cc.jsonable(cc.instance(rng, sch, 0.5)), "lazy": False},
                     "ops": []}
             s = cc.Session(case)
             try:
@@ -578,17 +595,47 @@ class C11(Prop):
                 cfg.load_collection(handed)
                 g = Gen(rng)
                 g.sch = sch
-                ops = [g.path_op() for _ in range(rng.randint(1, 8))]
+                # path operations interleaved with reloads, load_shell_env and clones; after a
+                # clone both objects are operated on (the handed-out mapping must survive all)
+                ops, cfgs = [], [cfg]
+                for _ in range(rng.randint(1, 10)):
+                    r = rng.random()
+                    if r < 0.2:
+                        ops.extend(g.reload())
+                    elif r < 0.3:
+                        ops.append(["clone", None if rng.random() < 0.7 else g.inst(0.3)])
+                    elif r < 0.36:
+                        ops.append(["load_collection", None])      # the handed-out mapping again
+                    else:
+                        ops.append(g.path_op())
                 ops = [o for o in ops if o[0] not in ("update_proxy",)]
                 for op in ops:
-                    cfg, _ = s.try_op(cfg, op, rng)
-                # in-place edits of list leaves read through the config
-                for pth, v in list(gt.leaf_paths(gt.deep_view(cfg))):
-                    if isinstance(v, list) and rng.random() < 0.5:
-                        cur = cfg
-                        for k in pth[:-1]:
-                            cur = cur[k]
-                        cur[pth[-1]].append("SCRIBBLE")
+                    if op[0] == "clone":
+                        new, _ = s.try_op(cfgs[-1], op, rng)
+                        cfgs.append(new)
+                        continue
+                    if op[0] == "load_collection" and op[1] is None:
+                        try:
+                            rng.choice(cfgs).load_collection(handed)
+                        except Exception:
+                            pass
+                        continue
+                    i = rng.randrange(len(cfgs))
+                    cfgs[i], _ = s.try_op(cfgs[i], op, rng)
+                # in-place edits of mutable leaves read through the configs
+                for cfg in cfgs:
+                    for pth, v in list(gt.leaf_paths(gt.deep_view(cfg))):
+                        if isinstance(v, (list, set, bytearray)) and rng.random() < 0.5:
+                            cur = cfg
+                            for k in pth[:-1]:
+                                cur = cur[k]
+                            x = cur[pth[-1]]
+                            if isinstance(x, list):
+                                x.append("SCRIBBLE")
+                            elif isinstance(x, set):
+                                x.add("SCRIBBLE")
+                            else:
+                                x.extend(b"SCRIBBLE")
                 res["evaluations"] += 1
                 what = None
                 if handed != snap:
@@ -600,7 +647,7 @@ class C11(Prop):
                 if root.configuration(path) != before:
                     what = "collection configuration changed by Config operations"
                 if what:
-                    res["failures"].append({"case": {"path": path, "ops": ops}, "what": what})
+                    res["failures"].append({"case": {"path": path, "ops": repr(ops)}, "what": what})
                     break
 
                 # mutate what was handed out / handed in, re-read the collection
@@ -610,6 +657,10 @@ class C11(Prop):
                             scribble(d[k])
                         elif isinstance(d[k], list):
                             d[k].append("SCRIBBLE")
+                        elif isinstance(d[k], set):
+                            d[k].add("SCRIBBLE")
+                        elif isinstance(d[k], bytearray):
+                            d[k].extend(b"SCRIBBLE")
                         else:
                             d[k] = "SCRIBBLE"
                     d["__new__"] = 1
